@@ -24,6 +24,9 @@ CHECKS = {
     "C06": dict(engine="core(api)", technique=PBT + "generated attachment programs with arbitrary Unicode; oracle: each attachment exactly once on its target record(s), nowhere else, values byte-identical, per-route order preserved",
                 text="Exploration: 24k programs per quick run, both configurations, flush() cycles at any operation boundary between attachment and finish.",
                 note="Must/may classification follows the property's own precondition. Shapes of the known dup-unit finding are excluded by construction and counted."),
+    "C07": dict(engine="core(api+sched)", technique=PBT + "generated API call sequences in every listed state (no reporter, no-op/unsampled/empty parents, re-entrant closures, full queue, exceeded limits, thread-local teardown); oracle: every call returns (catch_unwind per call; process abort = violation; an operation that needed another vthread deadlocks the scheduler)",
+                text="Exploration: ~10k in-process sequences (incl. re-entrant mini programs inside property/event closures), 2.4k sequences without a reporter, 2.4k scheduled sequences with ring-fill episodes, limit bursts and 600 thread-local-teardown cases on fresh OS threads per quick run.",
+                note="Debug assertions are ON in the harness profile (as in the repository's own dev-profile suite). Blocking is detected only as scheduler deadlock / watchdog expiry."),
     "C08": dict(engine="core(sched)", technique=PBT + "generated trace/thread histories + schedules; oracle: collector_stats() zero at quiescence and bounded by in-flight traces/live threads at every idle point",
                 text="Exploration: 24k scheduled histories per quick run in both configurations, stats sampled after every cycle.",
                 note="Only the four counters exposed by the verification hook are observed."),
@@ -36,6 +39,12 @@ CHECKS = {
     "C11": dict(engine="core(api)", technique=PBT + "generated extraction points; oracle: returned (trace, span, sampled) equals the model's span, matched to the delivered record by name; remote children delivered under it",
                 text="Exploration: 24k programs per quick run, both configurations.",
                 note="The shape of a known panic (C07) is excluded by construction and counted."),
+    "C12": dict(engine="codec(+libFuzzer)", technique=PBT + "generated contexts (boundary classes) and near-valid traceparent strings (22 mutation kinds) + coverage-guided libFuzzer target with the same oracle; oracle: round trip, fixed output form, differential against an independent reference parser, no panic",
+                text="Exploration: 780k generated cases per quick run; thorough adds 42M cases and a 3 min libFuzzer campaign (oracle inside the target).",
+                note="The reference parser implements only the property's sentence; inputs that are valid hex but not canonical are only required to decode to the denoted values when accepted."),
+    "C16": dict(engine="core(disabled+api)", technique=PBT + "the same generated programs compiled against fastrace without the enable feature, and with it for non-recording spans; oracle: invocation counters in every closure, zero report() calls, no threads, None contexts/elapsed, empty conversions",
+                text="Exploration: 12k programs against the disabled build and 12k against the enabled build (no-op derived spans, no local parent) per quick run.",
+                note="Thread check reads /proc/self/task of the worker process."),
     "C17": dict(engine="core(api)", technique=PBT + "generated local-span forests pushed to N parents and converted; oracle: copies identical up to trace/root parent, to_span_records equals a pushed copy, open spans end inside the collect() bracket",
                 text="Exploration: 24k programs per quick run, both configurations.",
                 note="Durations compared exactly within a batch, +-2ns across batches; brackets read the library's own monotonic clock (fastant)."),
@@ -77,6 +86,7 @@ def main():
         "engines": [
             {"name": "core", "path": "/verif/engines/core", "serves_properties": [p for p in ALL if p in CHECKS and CHECKS[p]["engine"].startswith("core")],
              "kind_free_text": "proptest-driven interpreter of generated tracing programs with a lockstep reference model; built plain (public API, real flush()), hooked (--cfg fastrace_verif: baton scheduler over hook sites) and without the enable feature"},
+            {"name": "codec", "path": "/verif/engines/codec", "serves_properties": ["C12"], "kind_free_text": "proptest worker + cargo-fuzz target /verif/fuzz/fuzz_targets/c12_text.rs sharing one oracle library"},
         ],
         "checks": checks,
         "notes": "All checks are generated-input searches (proptest; libFuzzer where inputs are byte strings). Known findings: /verif/known_findings.json. Seeds: VERIF_SEED. See DESIGN.md.",
